@@ -493,8 +493,8 @@ func TestC31(t *testing.T) {
 	ext2, late2 := ext, late
 	ext2.keys, late2.keys = []revcache.Key{k0, k2}, []revcache.Key{k0, k2}
 	phases := []c31Phase{{"3keys-5s-grid", small, 12, true},
-		{"1key-range-ends-clock-2000", ext, mc.Pick(4, 5), true},
-		{"1key-clock-crossing-2^32s", late, mc.Pick(5, 7), true},
+		{"1key-range-ends-clock-2000", ext, mc.Pick(5, 6), true},
+		{"1key-clock-crossing-2^32s", late, mc.Pick(6, 8), true},
 		{"1key-arbitrary-lifetimes", arb1, 20, true},
 		{"2keys-arbitrary-lifetimes-nomerge", arb2, 20, false}}
 	if mc.Thorough() {
